@@ -263,6 +263,7 @@ type regSpec struct {
 	ty, hid          int
 	once, async, seq bool
 	filtM, filtR     int // filtM == 0: no filter
+	filtCancels      bool // the filter cancels the context of the publish it is evaluated for
 	body             int
 }
 
@@ -403,6 +404,9 @@ func mkOps[T any](ty int, mk func(v int, bad any, p *pubInfo) T) typeOps {
 					v, p := getVP(e)
 					ok := v%r.filtM == r.filtR
 					cs.emit("filt %d %d %d %s", p.depth, rid, v, b01(ok))
+					if r.filtCancels && p.cancel != nil {
+						p.cancel() // user code between the cancellation check and the handler start
+					}
 					return ok
 				}))
 			}
@@ -471,6 +475,7 @@ func (cs *busCase) do(a action) {
 		if a.args[5] != "-" {
 			mr := strings.Split(a.args[5], ":")
 			r.filtM, r.filtR = atoi(mr[0]), atoi(mr[1])
+			r.filtCancels = len(mr) > 2 && mr[2] == "c"
 		}
 		allOps[r.ty].subscribe(cs, r)
 	case "unsub":
